@@ -122,6 +122,8 @@ func NewStd(o *kernel.Outcome, tape *kernel.Tape, opt StdOptions) (*World, error
 	// users
 	w.Store.Users["u1"] = &User{ID: "u1", Username: "alice", Password: "pw-alice", Email: "alice@sim", EmailVerified: true, Name: "Alice A", Phone: "+41 1"}
 	w.Store.Users["u2"] = &User{ID: "u2", Username: "bob", Password: "pw-bob", Email: "bob@sim", Name: "Bob B", Phone: "+41 2"}
+	// a subject of the tenant-prefixed / URN kind: it contains the character that separates id and subject in opaque tokens
+	w.Store.Users["tenant1:carol"] = &User{ID: "tenant1:carol", Username: "carol", Password: "pw-carol", Email: "carol@sim", Name: "Carol C", Phone: "+41 3"}
 	// provider configuration
 	w.Conf = &op.Config{
 		CryptoKey:                w.CryptoKey,
@@ -384,7 +386,8 @@ func ParseTokenResponse(body string) (*TokenResponse, error) {
 // harness's copy of the provider key (opaque) or the JWT payload (unverified, ledger use only).
 func (w *World) DecodeAccess(tok string) (id, subject string, jwt bool, ok bool) {
 	if plain, err := crypto.DecryptAES(tok, string(w.CryptoKey[:])); err == nil {
-		parts := strings.Split(plain, ":")
+		// the format is "<token id>:<subject>"; token ids have no colon, subjects may (URN or tenant-prefixed ids)
+		parts := strings.SplitN(plain, ":", 2)
 		if len(parts) == 2 {
 			return parts[0], parts[1], false, true
 		}
